@@ -10,6 +10,10 @@ Ops: node (inject state) | fresh (restart: new instance, optionally other code) 
 setver | call (a real `obj.f(x)`; the command it produces is appended to the log) | dump | compact | load.
 Dump modes: in memory, file (`fullDumpFile`, no fork), user serializer (enabled version next to the internal data, repair D22).
 
+Registered for C09 as well (`ctx.pid == "C09"`): only the dump / load / install families run (directed restore cases with
+the code ahead of the enabled version, pair scripts with dumps) and only the signatures about the restored enabled
+version / name table are reported (C09: a snapshot restores the object state "enabled code version included").
+
 Monitors (written against the property text, evaluated on the real observations only):
   M1 nothing is applied at or after a VERSION entry the node's code does not have; no entry is applied twice
   M2 a call resolves to the newest implementation whose version is <= getCodeVersion(), also after load/restart
@@ -29,7 +33,7 @@ import re
 
 from harness.corr import versions_lib as L
 
-PROPERTIES = ["C17"]
+PROPERTIES = ["C17", "C09"]
 ORDER = 45
 
 # unknown function ids: since the D9 repair the KeyError of `_idToMethod[funcID]` is caught in `__doApplyCommand`,
@@ -42,6 +46,7 @@ SIG_BLOCKED = "syncobj.applyLogEntries:applied-with-unsupported-enabled-version"
 SIG_TABLE = "syncobj.loadDumpFile:call-not-newest-version-le-enabled"
 SIG_LOST = "syncobj.loadDumpFile:enabled-version-not-restored"
 SIG_LOST_USER = "syncobj.loadDumpFile:enabled-version-not-restored-with-user-serializer"
+RESTORE_SIGS = (SIG_TABLE, SIG_LOST, SIG_LOST_USER)     # what the C09 plan reports (restored enabled version / name table)
 SIG_TABLE_APPLY = "syncobj.doApplyCommand:call-not-newest-version-le-enabled"
 SIG_PAIR = "syncobj.applyLogEntries:old-and-new-code-run-different-method"
 SIG_GUARD = "syncobj.setCodeVersion:unsupported-or-lower-version-accepted"
@@ -370,6 +375,8 @@ class Runner(object):
             self.cov["load_enabled_gt_self" if b.obj.getCodeVersion() > sv else "load_enabled_le_self"] += 1
             if b.obj.getCodeVersion() > 0:
                 self.cov["load_after_switch"] += 1
+            if b.obj.getCodeVersion() < sv:
+                self.cov["load_self_gt_enabled"] += 1      # code ahead of the enabled version (rolling upgrade)
         else:
             raise ValueError(o)
 
@@ -664,6 +671,26 @@ def _directed(argc):
     return out
 
 
+def _directed_restore():
+    """Restore while the code is AHEAD of the enabled version (rolling upgrade before setCodeVersion): the dump says
+    version 0 or 1, the code has up to 2. Restart from the dump (same instance / fresh instance), install of a snapshot
+    received from the leader (clearJournal), in memory / file / user serializer. After every load the name table and
+    the id of a REAL call per method are compared with the model and checked against the enabled version (M2)."""
+    r = "r"
+    code = {"objs": [[("f", 0, r), ("g", 0, r), ("g", 1, r), ("g", 2, "rs")], [("h", 0, r), ("h", 2, r), ("k", 1, r)]]}
+    out = []
+    for enabled_at_dump in (0, 1):
+        log = [[["noop"], 1, 0], [["reg", 0, 9401], 2, 1]] + ([[["ver", 1], 3, 1]] if enabled_at_dump else [[["reg", 1, 9402], 3, 1]]) + \
+            [[["reg", 2, 9403], 4, 1]]
+        st = {"enabled": 0, "tableVer": 0, "lastApplied": 1, "commit": 4, "log": log, "waiting": []}
+        more = [[["reg", 0, 9404], 5, 1], [["ver", 2], 6, 1], [["reg", 1, 9405], 7, 1]]
+        for mode in ("mem", "file", "user"):
+            for tail in ([["load", False]], [["compact"], ["fresh", "N"], ["load", False]], [["compact"], ["fresh", "N"], ["load", True]]):
+                out.append(({"N": code}, [["node", "N", st], ["apply"], ["dump"]] + tail +
+                            [["apply"], ["append", more], ["commit", 5], ["apply"], ["commit", 7], ["apply"]], mode))
+    return out
+
+
 def _corpus(ctx):
     """corpus/versions/*.json: minimised past failures (handler scripts), run first."""
     d = os.path.join(ctx.verif, "corpus", "versions")
@@ -686,13 +713,17 @@ def run(ctx):
     disagreements, violations, samples = [], [], []
     distinct = set()
     argc = [10000]
-    n_handler = ctx.scale(1500, 24000)
-    n_pair = ctx.scale(500, 8000)
+    c09 = (ctx.pid == "C09")        # C09 plan: only the dump / load / install families, only the restore signatures
+    n_handler = 0 if c09 else ctx.scale(1500, 24000)
+    n_pair = ctx.scale(70, 3000) if c09 else ctx.scale(500, 8000)
     cases = 0
     runs = []
     try:
         todo = [("corpus", s, sc, m) for s, sc, m in _corpus(ctx)]
+        todo += [("directed", s, sc, m) for s, sc, m in _directed_restore()]
         todo += [("directed", s, sc, m) for s, sc, m in _directed(argc)]
+        if c09:
+            todo = [t for t in todo if any(o[0] == "load" for o in t[2])]
         for i in range(n_handler):
             todo.append(("handler",) + gen_handler_script(rng, forbidden, argc) + (rng.choice(["mem", "mem", "mem", "file", "user"]),))
         for kind, specs, script, mode in todo:
@@ -705,7 +736,7 @@ def run(ctx):
             runs.append((R, specs, script, mode, seed, kind))
             cases += 1
         for i in range(n_pair):
-            g = gen_pair_script(rng, forbidden, argc, with_dump=rng.random() < 0.6)
+            g = gen_pair_script(rng, forbidden, argc, with_dump=c09 or rng.random() < 0.6)
             if g is None:
                 continue
             specs, script, dumped = g
@@ -730,10 +761,14 @@ def run(ctx):
         cov["kind_" + kind] += 1
         distinct.add(hashlib.sha1("\n".join(R.lines).encode()).hexdigest())
         d = _compare(R, part, disagreements, cov)
+        if c09 and d is not None and d["at"].get("op") not in ("load", "dump", "compact", "restart"):
+            d = None                    # anything else is C17's business and reported there
         if d is not None and len(disagreements) < 3:
             d["input"] = {"specs": _js(specs), "script": script, "mode": mode, "seed": seed, "kind": kind}
             disagreements.append(d)
         for v in R.viol:
+            if c09 and v["signature"] not in RESTORE_SIGS:
+                continue
             if len(violations) < 3:
                 v = dict(v)
                 v["replay"] = {"specs": _js(specs), "script": script, "mode": mode, "seed": seed, "kind": kind}
@@ -748,6 +783,10 @@ def run(ctx):
               "setver_tooLow", "setver_queued", "dump_made", "dump_none", "op_load", "op_compact", "mode_file", "mode_user",
               "m1_checked", "m3_checked", "m4_checked", "follower_from_dump", "follower_from_log", "load_after_switch",
               "load_enabled_gt_self", "load_clear_kept", "load_clear_installed", "load_ev_cbOpen", "hook_calls", "m5_checked"] + (["ev_unknownId", "cb_keyError"] if INCLUDE_UNKNOWN_IDS else [])
+    floors.append("load_self_gt_enabled")
+    if c09:
+        floors = ["op_load", "op_dump", "dump_made", "mode_file", "mode_user", "mode_mem", "load_clear_installed", "load_clear_kept",
+                  "follower_from_dump", "load_after_switch", "load_self_gt_enabled", "load_enabled_gt_self"]
     missed = [f for f in floors if not cov.get(f)]
     if missed and not disagreements and not violations:
         res["inconclusive"] = "coverage floor missed: %s" % missed
@@ -771,6 +810,8 @@ def search(ctx, unproved):
             seed = rng.randrange(1 << 30)
             R = _finish_pair(ctx, ns, specs, script, random.Random(seed), "mem", seed)
             for v in R.viol:
+                if ctx.pid == "C09" and v["signature"] not in RESTORE_SIGS:
+                    continue
                 v = dict(v)
                 v["replay"] = {"specs": _js(specs), "script": script, "mode": "mem", "seed": seed, "kind": "pair"}
                 found.append(v)
